@@ -203,7 +203,7 @@ def run(ctx):
     hub = Stream("same-sender-different-models")
     toks = C17.tokens()
     seq = []
-    for _ in range(40 if ctx.thorough else 6):
+    for _ in range(150 if ctx.thorough else 30):
         module = r.choice(mods)
         head = C17.hub_header(module, r.choice(toks[module]["tokens"]))
         if head is None:
